@@ -384,7 +384,7 @@ R.mutant("benign-rename-result", MUT,
          sub("        result = dict.popitem(self)\n        self.changed()\n        return result\n", "        item = dict.popitem(self)\n        self.changed()\n        return item\n"),
          None)
 R.mutant("benign-ior-calls-builtin", MUT,
-         sub("        self.update(other)\n        return self\n", "        set.update(self, other)\n        self.changed()\n        return self\n"),
+         sub("        self.update(other)\n        return self\n\n    def __iand__", "        set.update(self, other)\n        self.changed()\n        return self\n\n    def __iand__"),
          None)
 R.mutant("benign-extra-listener", MUT,
          sub("        event.listen(parent_cls, \"pickle\", pickle, raw=True, propagate=True)\n",
